@@ -66,8 +66,7 @@ Section Wrap.
     rewrite <- Hbd. unfold den_text_at, den_nested.
     rewrite (join_nl_unlines (x :: X')) by discriminate.
     destruct (o_P orc (s_env h) (unlines (x :: X'))) as [toks e'].
-    destruct (den_fold (den_tok env orc f false 0) (set_env e' h)
-                (map (shift_tok 1) (map (shift_tok (a + N.of_nat (p_off p))) (drop_front_matter toks))))
+    destruct (den_fold (den_tok env orc f false 0) (set_env e' h) _)
       as [[[ns h'] bb]|e]; reflexivity.
   Qed.
 
@@ -92,7 +91,7 @@ Section Wrap.
       destruct (parse_directive_text adm_class first (directive_content k (opt_lines o ++ X)))
         as [p|]; [|discriminate].
       destruct (o_opt_validate orc name (p_optblock p)) as [attrs warns].
-      destruct (bd (pos + N.of_nat (p_off p))); [|discriminate].
+      destruct (bd _); [|discriminate].
       simpl in H. inversion H; reflexivity.
     - destruct Hwf as [Ho Hi]. cbn [expected] in H. eapply IHo; eauto.
     - destruct Hwf.
